@@ -117,7 +117,7 @@ def run(ctx):
                                nsim=10 if quick else 120, depth=40 if quick else 60,
                                ngen=10, steps=140 if quick else 80, variants=variants,
                                scripted=ps.history_matrix_jobs(variants) + ps.fault_jobs(variants) + ps.expired_jobs(variants)
-                               + ps.nested_jobs(variants)[::2 if quick else 1])
+                               + ps.nested_jobs(variants)[::2 if quick else 1] + ps.stale_key_jobs(variants))
     ps.concurrent_phase(ctx, PID)
     if not quick:
         ps.selftest(ctx, PID, trace, lambda r: r.get("a") == "recv" and r.get("r") == "some",
